@@ -168,7 +168,7 @@ def setters(facts):
 def run(ctx, rep):
     facts, eff = ctx.facts, ctx.effects
     roots = ro_roots(facts)
-    if len([r for r in roots if '::controls::' not in r]) < 90:
+    if len([r for r in roots if '::controls::' not in r]) < {'default': 90, 'nounicode': 90, 'noalloc': 80, 'nostd': 40}.get(ctx.config, 40):
         rep.machinery('FLOOR only %d read-only roots in the witness crate' % len(roots))
     gcache = {}
     dev_w = eff.dev['W']
